@@ -14,6 +14,11 @@ pub fn check(tier: &str) -> i32 {
     // is not fixed by the statement, and the implementation answers it differently for such names)
     let scn2 = Scn { prop: Prop::C03, horizon_ms: 125_000, ops: OPS.iter().copied().filter(|o| *o != Op::VerifyI).collect(), host: HOST_CAPITALS };
     rep.run_bfs(&scn2, if thorough { 4 } else { 3 }, Duration::from_secs(if thorough { 1200 } else { 30 }));
+    // a second browse of the type is served from the cache: the same oracle on what it is told
+    let ops3 = vec![Op::AnnI120, Op::AnnI10, Op::PtrOnlyI, Op::GoodbyeA, Op::GoodbyeSrvI, Op::GoodbyeAllI, Op::SrvNewPort, Op::ANewFlush, Op::Idle1100, Op::Idle5s, Op::BrowseAgain];
+    let scn3 = Scn { prop: Prop::C03, horizon_ms: 125_000, ops: ops3, host: HOST_PLAIN };
+    rep.run_bfs(&scn3, if thorough { 6 } else { 4 }, Duration::from_secs(if thorough { 3000 } else { 60 }));
+    rep.require("browse-histories-C03-with-a-second-browse", "resolved_events_checked");
     rep.require("browse-histories-C03", "resolved_events_checked");
     rep.require("browse-histories-C03-host-with-capitals", "resolved_events_checked");
     rep.finish()
